@@ -4,6 +4,7 @@ include!("../../generated/generated_sbix.rs");
 
 impl Sbix {
     fn compile_header_flags(&self) -> u16 {
-        self.flags.bits() & 1
+        // bit 0 is always set, bit 1 (draw outlines) is kept, the rest is reserved
+        (self.flags.bits() & HeaderFlags::DRAW_OUTLINES.bits()) | HeaderFlags::ALWAYS_SET.bits()
     }
 }
